@@ -304,6 +304,7 @@ def generate_full_combinatoric_space(sample_id: int, screen: ScreenBase):
         sample_names=sample_ids.astype(str),
         treatment_doses=treatment_doses.astype(FloatingPointType),
         plate_names=plate_names,
+        control_treatment_name=screen.control_treatment_name,
         sample_mapping=screen.sample_mapping,
         treatment_mapping=screen.treatment_mapping,
     )
